@@ -8,7 +8,12 @@ import FluteModel.Sched
         (il = interleave_blocks, efdt = symbol length of the FDT: used by the harness only)
     add <prio> <nSym> <maxCount> <n|d|i> <carNs> <-|startNs> <n|f|d|t> <targetNs> <0|1> <E> <B> <rem> -> ok <toi> | ERR
         (E, B, rem = symbol length, max source block length, bytes in the last symbol: harness only;
-         an optional 14th token x<ns> = CacheControl::Expires, harness only: the model has no cache control)
+         optional tokens: x<ns> = CacheControl::Expires, harness only (the model has no cache control);
+         Q<p> / R<p> = EMPTY object sent with RaptorQ / Raptor and p parity symbols from a buffer, harness only:
+         one transfer is then the p repair packets of the empty block, and nSym of the op line is that packet count
+         (the model's packets-per-transfer is an input; such an object has no target);
+         F<c0,c1,..> = fault schedule of a STREAM source (AddArgs.faults): code of the n-th transfer attempt,
+         0 = BlockEncoder::new fails (seek), >= 1 = the first read of the attempt fails)
     publish <t>                                                                                       -> ok
     remove <toi>                                                                                      -> true | false
     trigger <toi> <-|ns>                                                                              -> true | false
@@ -100,15 +105,31 @@ def withState (d : D) (f : State → D × String) : D × String :=
 def fin (d : D) (s : State) (out : String) : D × String :=
   ({ d with st := some s }, if s.panic.isSome then "PANIC" else out)
 
-def addStep (d : D) (prio nSym maxc ck cd st tk td al e b rem : String) : D × String :=
+/-- optional tokens of `add`: `x<ns>` (cache control, harness only) and `F<c0,c1,..>` (fault schedule of a stream
+    source: code of the n-th transfer attempt, 0 = the open fails, >= 1 = the first read fails) -/
+def faultsOf (opts : List String) : Option (List Nat) :=
+  opts.foldl (fun acc o =>
+    match acc with
+    | none => none
+    | some fl =>
+      if o.startsWith "F" then
+        match nats? (((o.drop 1).toString).splitOn ",") with
+        | some l => some l
+        | none => none
+      else if o.startsWith "x" || o.startsWith "Q" || o.startsWith "R" then some fl else none) (some [])
+
+def addStep (d : D) (prio nSym maxc ck cd st tk td al e b rem : String) (opts : List String := []) : D × String :=
     withState d fun s =>
       match nats? [prio, nSym, maxc, cd, td, al, e, b, rem], optNat? st with
       | some [prio, nSym, maxc, cd, td, al, _, _, _], some st =>
         match carousel? ck cd, target? tk td with
         | some car, some tg =>
           if al > 1 then (d, "bad-op") else
+          match faultsOf opts with
+          | none => (d, "bad-op")
+          | some fl =>
           let (s, r) := addObject s { prio := prio, nSym := nSym, maxCount := maxc, carousel := car,
-                                       start := st, target := tg, allowStop := al == 1 }
+                                       start := st, target := tg, allowStop := al == 1, faults := fl }
           fin d s (match r with | some t => s!"ok {t}" | none => "ERR")
         | _, _ => (d, "bad-op")
       | _, _ => (d, "bad-op")
@@ -138,7 +159,9 @@ def step (d : D) (args : List String) : D × String :=
       | _, _ => (d, "bad-op")
     | _ => (d, "bad-op")
   | ["add", prio, nSym, maxc, ck, cd, st, tk, td, al, e, b, rem] => addStep d prio nSym maxc ck cd st tk td al e b rem
-  | ["add", prio, nSym, maxc, ck, cd, st, tk, td, al, e, b, rem, _cc] => addStep d prio nSym maxc ck cd st tk td al e b rem
+  | ["add", prio, nSym, maxc, ck, cd, st, tk, td, al, e, b, rem, o1] => addStep d prio nSym maxc ck cd st tk td al e b rem [o1]
+  | ["add", prio, nSym, maxc, ck, cd, st, tk, td, al, e, b, rem, o1, o2] =>
+    addStep d prio nSym maxc ck cd st tk td al e b rem [o1, o2]
   | ["publish", t] =>
     withState d fun s =>
       match nat? t with
